@@ -382,6 +382,24 @@ pub fn run(prop: &str, seed: u64, n: usize, outdir: &str, _corpus: Option<&str>)
                             if !dual { eprintln!("bigram.left:\n{}bigram.right:\n{}bigram.cost:\n{}lex:\n{}unk:\n{}", String::from_utf8_lossy(&f1.left), String::from_utf8_lossy(&f1.right), String::from_utf8_lossy(&f1.cost), String::from_utf8_lossy(&f1.lex), String::from_utf8_lossy(&f1.unk)); }
                         }
                         flags.push((format!("c16_{}_within_k1", name), (dims_ok && worst <= c.k as i64 + 1) as u8));
+                        // "can stand in for the matrix-based one": also after the documented id mapping step (docs/map.md),
+                        // the same permutation (a rotation of the left ids, the reversal of the right ids) applied to both
+                        if dims_ok && mconn.len() >= 2 && mconn[0].len() >= 2 {
+                            let (nr, nl) = (mconn.len() as u16, mconn[0].len() as u16);
+                            let lmap: Vec<u16> = (2..nl).chain(1..2).collect();
+                            let rmap: Vec<u16> = (1..nr).rev().collect();
+                            let copy = |x: &vibrato::Dictionary| -> Option<vibrato::Dictionary> { let mut b = vec![]; x.write(&mut b).ok()?; vibrato::Dictionary::read(&b[..]).ok() };
+                            let both = std::panic::catch_unwind(std::panic::AssertUnwindSafe(|| {
+                                let a = copy(dm)?.map_connection_ids_from_iter(lmap.clone(), rmap.clone()).ok()?;
+                                let b = copy(&d)?.map_connection_ids_from_iter(lmap.clone(), rmap.clone()).ok()?;
+                                Some((conn_of(&a), conn_of(&b)))
+                            }));
+                            let okm = match both {
+                                Ok(Some((a, b))) => a.len() == b.len() && a.iter().zip(b.iter()).all(|(x, y)| x.len() == y.len() && x.iter().zip(y.iter()).all(|(p, q)| (*p as i64 - *q as i64).abs() <= c.k as i64 + 1)),
+                                _ => false,
+                            };
+                            flags.push((format!("c16_{}_within_k1_after_id_mapping", name), okm as u8));
+                        }
                     }
                     _ => flags.push((format!("c16_{}_compiles", name), 0)),
                 }
